@@ -172,7 +172,10 @@ def one_case(rec, tap, rng, cid):
             return
         rel = (np.abs(ea * k ** p_exp - eb) / np.abs(eb))[posed]
         rec.maximum("plateau scan: |E_k k^p - E_1|/E_1", np.max(rel))
-        rec.check(np.all(rel <= 1e-4), "plateau/scan-moduli-not-rescaled",
+        # scan fits use short ranges: optimiser termination noise is larger
+        # than for the final fit (worst seen on the unchanged tree 5e-4 in
+        # 24000 twins); semantic breaks give O(0.1 .. 1)
+        rec.check(np.all(rel <= 1e-2), "plateau/scan-moduli-not-rescaled",
                   "E(delta) scan: max rel. deviation of E_k k^p from E_1 = "
                   "%.3e" % np.max(rel), case)
         if abs(fa["optimal_fit_delta"] - fb["optimal_fit_delta"]) > 1e-12:
